@@ -22,10 +22,15 @@ class SetTypes(object):
 
     # ---- which functions return sets
     def _functions(self):
-        for m in self.repo.modules.values():
-            for n in ast.walk(m.tree):
-                if isinstance(n, (ast.FunctionDef, ast.AsyncFunctionDef)):
-                    yield m, n
+        if not hasattr(self, "_fn_cache"):
+            self._fn_cache = []
+            self._by_name = {}
+            for m in self.repo.modules.values():
+                for n in ast.walk(m.tree):
+                    if isinstance(n, (ast.FunctionDef, ast.AsyncFunctionDef)):
+                        self._fn_cache.append((m, n))
+                        self._by_name[n.name] = self._by_name.get(n.name, 0) + 1
+        return self._fn_cache
 
     def _fixpoint(self):
         changed = True
@@ -62,8 +67,8 @@ class SetTypes(object):
             return False
         # method call: by method name, if every function of that name in the repo returns a set
         cands = [q for q in self.set_funcs if q.endswith(":%s" % name)]
-        alln = [1 for mm, fn in self._functions() if fn.name == name]
-        return bool(cands) and len(cands) == len(alln)
+        self._functions()
+        return bool(cands) and len(cands) == self._by_name.get(name, 0)
 
     def is_set(self, e, fn, m, depth=0):
         if depth > 6:
